@@ -526,8 +526,32 @@ def check_multi(vendor_key, group, no_collapse, report):
     return len(diffs)
 
 
+# devices whose diffs hold the same signed lines at DIFFERENT nesting (the views group devices with equal diffs: equal means
+# equal entries, signs and nesting) - two shapes per vendor plus a true duplicate of the first
+def synth_multi():
+    out = {}
+    for vk, model, blk, a, b in (("huawei", "Huawei", "interface 100GE1/0/1", "mpls", "mpls ldp"),
+                                 ("cisco", "Cisco Catalyst", "interface GigabitEthernet0/1", "shutdown", "ip routing")):
+        old = [[blk, []]]
+        out[vk] = [
+            {"name": "synth-multi/%s/nested" % vk, "vendor_key": vk, "model": model, "old": old, "new": [[blk, [[a, []], [b, []]]]]},
+            {"name": "synth-multi/%s/split" % vk, "vendor_key": vk, "model": model, "old": old, "new": [[blk, [[a, []]]], [b, []]]},
+            {"name": "synth-multi/%s/nested-again" % vk, "vendor_key": vk, "model": model, "old": old, "new": [[blk, [[a, []], [b, []]]]]},
+        ]
+    return out
+
+
 def run_multi(block, ctx):
     from mc import corpus
+    if block["i"] == 0:
+        for vk, group in sorted(synth_multi().items()):
+            for order in (group, [group[1], group[0], group[2]]):
+                for nc in (0, 1):
+                    n = check_multi(vk, order, nc, ctx.violation)
+                    ctx.evals += 1
+                    ctx.states += 1
+                    ctx.nontrivial += int(n >= 2)
+                    ctx.outcomes["M:synthetic devices=%d" % n] += 1
     by = {}
     for s_ in corpus.samples():
         by.setdefault(s_["vendor_key"], []).append(s_)
@@ -548,6 +572,7 @@ def replay(case):
         from mc import corpus
         out = []
         S = {s_["name"]: s_ for s_ in corpus.samples()}
+        S.update({s_["name"]: s_ for g in synth_multi().values() for s_ in g})
         check_multi(case["vendor_key"], [S[n] for n in case["samples"]], case["no_collapse"], lambda sig, c, d="": out.append((sig, d)))
         return out
     if case.get("part") == "E":
